@@ -1643,7 +1643,7 @@ func c05Cases(tier string, seed uint64) []fw.Case {
 	}
 	nRand, docs, nChange, nBDoc := 84, 8, 10, 12
 	if tier == "thorough" {
-		nRand, docs, nChange, nBDoc = 1200, 16, 100, 120
+		nRand, docs, nChange, nBDoc = 12000, 16, 1000, 600
 	}
 	for i := 0; i < nBDoc; i++ {
 		p := map[string]int64{"docs": int64(docs), "mask": []int64{63, 7, 56}[i%3], "p": []int64{100, 50, 80}[(i/3)%3],
